@@ -35,8 +35,6 @@ set_option linter.unusedVariables false
 namespace Ariadne.C13
 open Ariadne Ariadne.WsClient Ariadne.GqlWs Ariadne.WsProofs
 
-abbrev Vars := Option (List (String × PV))
-
 /-- the model of `AsyncBaseClient.execute_ws` on the tables extracted from /repo -/
 def runPlain (cfg : Cfg) (vars : Vars) (fs : List Frame) : Trace :=
   WsClient.run Tables.wsTypesAsync Tables.wsSubprotocolAsync cfg vars fs
@@ -78,23 +76,6 @@ def Msg.isSubscribe : Msg → Bool
   | .subscribe .. => true
   | _ => false
 
-def pingF (f : Frame) : Bool := (letter f).isPing
-
-/-- number of pings the subscription consumes -/
-def pingCount (fs : List Frame) : Nat := (prefixUntilTerminal fs).countP pingF
-
-/-- the frames the streaming loop is handed: the continuing prefix and the first terminal frame -/
-def consumed (fs : List Frame) : List Frame := prefixUntilTerminal fs ++ (firstTerminal fs).toList
-
-/-- deliveries and sends only (no yields, no close): the wire-level interleaving -/
-def Ev.isIO : Ev → Bool
-  | .recv _ => true
-  | .send _ => true
-  | _ => false
-
-/-- the wire-level interleaving the protocol demands for one consumed frame -/
-def ioOf (f : Frame) : List Ev := if pingF f then [.recv f, .send .pong] else [.recv f]
-
 /-- What the property demands of the terminal outcome, from the first terminal frame
     (`none` = the frame is outside the property's alphabet: nothing demanded). -/
 def demandedOutcome : Option Frame → Option Outcome
@@ -120,28 +101,6 @@ theorem run_dup_kwarg (cfg : Cfg) (vars : Vars) (fs : List Frame) (h : ¬ NoDupK
 theorem run_no_frames (cfg : Cfg) (vars : Vars) (h : NoDupKw cfg) :
     runPlain cfg vars [] = ⟨[theConnect cfg, .send (initMsg cfg)], .internal "ConnectionClosedOK"⟩ := by
   simp [runPlain_eq, runT, show J.hasKey "subprotocols" cfg.kwargs = false from h, theConnect, initMsg]
-
-theorem first_ack (f : Frame) (h : (letter f).isAck = true) :
-    handle proto (some proto.ack) f = .ret none := by
-  have hs := handle_first_of_letter f
-  unfold FirstSpec at hs
-  cases hl : letter f <;> simp [hl, Letter.isAck] at h
-  simpa [hl, proto] using hs
-
-theorem first_not_ack (f : Frame) (h : (letter f).isAck = false) :
-    ∃ o, handle proto (some proto.ack) f = .raise o ∧
-      (¬ letter f = .outside → isBadBytes f = false → ∃ a, o = .invalidMessage a) := by
-  have hs := handle_first_of_letter f
-  unfold FirstSpec at hs
-  cases hl : letter f <;> simp only [hl] at hs
-  case ack => simp [hl, Letter.isAck] at h
-  case outside =>
-    obtain ⟨o, ho⟩ := hs
-    exact ⟨o, by simpa [proto] using ho, fun hne => absurd rfl hne⟩
-  case nonJson =>
-    refine ⟨_, by simpa [proto] using hs, ?_⟩
-    intro _ hb; exact ⟨.message, by simp [hb]⟩
-  all_goals exact ⟨_, by simpa [proto] using hs, fun _ _ => ⟨_, rfl⟩⟩
 
 /-- A first frame that is not the ack: only the init was sent, nothing is yielded, the frame's
     exception escapes. -/
@@ -172,108 +131,7 @@ theorem run_unserialisable (cfg : Cfg) (vars : Vars) (a : Frame) (fs : List Fram
   have hk : J.hasKey "subprotocols" cfg.kwargs = false := h
   simp [runPlain_eq, runT, hk, first_ack a ha, afterAck, hv, theConnect, initMsg]
 
-/-! ## 3. Projections of the streaming loop (induction over the frame list) -/
-
-theorem sent_contEvents (f : Frame) :
-    (contEvents f).filterMap Ev.sent? = if pingF f then [Msg.pong] else [] := by
-  unfold contEvents pingF
-  cases hl : letter f <;> simp only [hl] <;>
-    first | rfl | (rename_i d; cases hd : d.truthy <;> simp [hd] <;> rfl)
-
-theorem yielded_contEvents (f : Frame) :
-    (contEvents f).filterMap Ev.yielded? = ((letter f).truthyNextData).toList := by
-  unfold contEvents
-  cases hl : letter f <;> simp only [hl, Letter.truthyNextData] <;>
-    first | rfl | (rename_i d; cases hd : d.truthy <;> simp [hd] <;> rfl)
-
-theorem recv_contEvents (f : Frame) : (contEvents f).filterMap Ev.recv? = [f] := by
-  unfold contEvents
-  cases hl : letter f <;> simp only [hl] <;>
-    first | rfl | (rename_i d; cases hd : d.truthy <;> simp [hd] <;> rfl)
-
-theorem io_contEvents (f : Frame) : (contEvents f).filter Ev.isIO = ioOf f := by
-  unfold contEvents ioOf pingF
-  cases hl : letter f <;> simp only [hl] <;>
-    first | rfl | (rename_i d; cases hd : d.truthy <;> simp [hd] <;> rfl)
-
-theorem sent_prefix (pre : List Frame) :
-    (pre.flatMap contEvents).filterMap Ev.sent? = List.replicate (pre.countP pingF) Msg.pong := by
-  induction pre with
-  | nil => simp
-  | cons f pre ih =>
-    simp only [List.flatMap_cons, List.filterMap_append, sent_contEvents, ih, List.countP_cons]
-    by_cases hp : pingF f = true <;> simp [hp, List.replicate_succ]
-
-theorem yielded_prefix (pre : List Frame) :
-    (pre.flatMap contEvents).filterMap Ev.yielded? =
-      pre.filterMap (fun f => (letter f).truthyNextData) := by
-  induction pre with
-  | nil => simp
-  | cons f pre ih =>
-    simp only [List.flatMap_cons, List.filterMap_append, yielded_contEvents, ih, List.filterMap_cons]
-    cases (letter f).truthyNextData <;> simp
-
-theorem recv_prefix (pre : List Frame) : (pre.flatMap contEvents).filterMap Ev.recv? = pre := by
-  induction pre with
-  | nil => simp
-  | cons f pre ih => simp [List.flatMap_cons, List.filterMap_append, recv_contEvents, ih]
-
-theorem io_prefix (pre : List Frame) :
-    (pre.flatMap contEvents).filter Ev.isIO = pre.flatMap ioOf := by
-  induction pre with
-  | nil => simp
-  | cons f pre ih => simp [List.flatMap_cons, List.filter_append, io_contEvents, ih]
-
-theorem firstTerminal_not_continues (fs : List Frame) (x : Frame) (h : firstTerminal fs = some x) :
-    continuesF x = false := by
-  induction fs with
-  | nil => simp [firstTerminal] at h
-  | cons f fs ih =>
-    by_cases hf : continuesF f = true
-    · simp only [firstTerminal, List.dropWhile_cons, hf, if_true] at h
-      exact ih (by simpa [firstTerminal] using h)
-    · have hf' : continuesF f = false := by simpa using hf
-      simp [firstTerminal, List.dropWhile_cons, hf'] at h
-      subst h; exact hf'
-
-/-- the terminal frame's events carry no send and no yield, deliver exactly that frame -/
-theorem terminal_projections (x : Frame) (hx : continuesF x = false) :
-    (stream proto [x]).1.filterMap Ev.sent? = [] ∧ (stream proto [x]).1.filterMap Ev.yielded? = [] ∧
-    (stream proto [x]).1.filterMap Ev.recv? = [x] ∧ (stream proto [x]).1.filter Ev.isIO = [.recv x] := by
-  rcases terminal_events x hx with he | ⟨he, -⟩ <;> rw [he] <;> exact ⟨rfl, rfl, rfl, rfl⟩
-
-/-- every projection of the streaming loop at once -/
-theorem stream_projections (fs : List Frame) :
-    (stream proto fs).1.filterMap Ev.sent? = List.replicate (pingCount fs) Msg.pong ∧
-    (stream proto fs).1.filterMap Ev.yielded? =
-      (prefixUntilTerminal fs).filterMap (fun f => (letter f).truthyNextData) ∧
-    (stream proto fs).1.filterMap Ev.recv? = consumed fs ∧
-    (stream proto fs).1.filter Ev.isIO = (consumed fs).flatMap ioOf := by
-  rw [stream_split fs]
-  cases hft : firstTerminal fs with
-  | none =>
-    simp [sent_prefix, yielded_prefix, recv_prefix, io_prefix, pingCount, consumed, hft]
-  | some x =>
-    have hx := firstTerminal_not_continues fs x hft
-    have hnp : pingF x = false := by
-      unfold continuesF at hx
-      unfold pingF
-      cases hl : letter x <;> simp [hl, Letter.continues, Letter.isPing] at hx ⊢
-    obtain ⟨t1, t2, t3, t4⟩ := terminal_projections x hx
-    have hio : ioOf x = [.recv x] := by simp [ioOf, hnp]
-    simp [t1, t2, t3, t4, hio, sent_prefix, yielded_prefix, recv_prefix, io_prefix, pingCount, consumed, hft,
-      List.filterMap_append, List.filter_append]
-
-/-- the outcome of the loop is decided by the first terminal frame alone -/
-theorem stream_outcome (fs : List Frame) :
-    (stream proto fs).2 =
-      match firstTerminal fs with
-      | none => .exhausted
-      | some x => (stream proto [x]).2 := by
-  rw [stream_split fs]
-  cases firstTerminal fs <;> rfl
-
-/-! ## 4. The clauses of the property (must tier), each for ALL frame lists -/
+/-! ## 3. The clauses of the property (must tier), each for ALL frame lists -/
 
 /-- **init_first.** The socket is opened first, with the protocol's subprotocol token, and the
     first message sent is `connection_init` carrying the configured payload (when it is truthy). -/
@@ -304,6 +162,16 @@ theorem connect_args (cfg : Cfg) :
   refine ⟨rfl, rfl, ?_, ?_⟩
   · intro ho; cases hc : cfg.origin <;> simp [connectArgs, originOf, ho, hc]
   · intro he; simp [connectArgs, he, dictUpdate]
+
+/-- The headers the socket is opened with are `ws_headers` updated by `extra_headers` (Python's
+    `dict.update`): a configured header survives unless `extra_headers` names it, and a header
+    given in `extra_headers` (a dict: keys unique) wins. -/
+theorem headers_merge (cfg : Cfg) (k : String) :
+    (J.lookup k (cfg.extraHeaders.getD []) = none →
+      J.lookup k (connectArgs subprotocol cfg).extraHeaders = J.lookup k cfg.headers) ∧
+    (∀ v, ((cfg.extraHeaders.getD []).map (·.1)).Nodup → J.lookup k (cfg.extraHeaders.getD []) = some v →
+      J.lookup k (connectArgs subprotocol cfg).extraHeaders = some v) :=
+  ⟨fun h => dictUpdate_lookup_none _ _ _ h, fun v hn h => dictUpdate_lookup_some _ _ _ _ hn h⟩
 
 /-- **nothing_before_ack / first_frame_must_be_ack.**  Whatever the first frame is, if it is not
     the ack then the only message ever sent is the init, nothing is yielded, no further frame is
@@ -381,17 +249,6 @@ theorem yields_in_order_partial (cfg : Cfg) (vars : Vars) (a : Frame) (fs : List
 def YieldsInOrder (cfg : Cfg) (vars : Vars) (a : Frame) (fs : List Frame) : Prop :=
   (runPlain cfg vars (a :: fs)).yielded = (prefixUntilTerminal fs).filterMap (fun f => (letter f).nextData)
 
-theorem truthy_eq_all_of_no_falsy (pre : List Frame) (h : pre.any (fun f => (letter f).falsyNext) = false) :
-    pre.filterMap (fun f => (letter f).truthyNextData) = pre.filterMap (fun f => (letter f).nextData) := by
-  induction pre with
-  | nil => rfl
-  | cons f pre ih =>
-    simp only [List.any_cons, Bool.or_eq_false_iff] at h
-    have hf : (letter f).truthyNextData = (letter f).nextData := by
-      cases hl : letter f <;> simp [hl, Letter.truthyNextData, Letter.nextData, Letter.falsyNext] at h ⊢
-      exact h.1
-    simp [List.filterMap_cons, hf, ih h.2]
-
 /-- **yields_in_order** outside the trigger of C13-F2. -/
 theorem yields_in_order_supported (cfg : Cfg) (vars : Vars) (a : Frame) (fs : List Frame) (v : Option J)
     (h : NoDupKw cfg) (ha : (letter a).isAck = true) (hv : Serialised vars v)
@@ -424,24 +281,6 @@ theorem pong_per_ping (cfg : Cfg) (vars : Vars) (a : Frame) (fs : List Frame) (v
     simp only [Trace.received, List.filterMap_append, (stream_projections fs).2.2.1]
     rfl
 
-/-- the frames a run consumes when `fs = pre ++ x :: rest`, `pre` continuing, `x` terminal -/
-theorem split_at_terminal (pre rest : List Frame) (x : Frame) (hpre : ∀ f ∈ pre, continuesF f = true)
-    (hx : continuesF x = false) :
-    prefixUntilTerminal (pre ++ x :: rest) = pre ∧ firstTerminal (pre ++ x :: rest) = some x := by
-  induction pre with
-  | nil => simp [prefixUntilTerminal, firstTerminal, List.takeWhile_cons, List.dropWhile_cons, hx]
-  | cons f pre ih =>
-    have hf := hpre f (by simp)
-    have ih' := ih (fun g hg => hpre g (by simp [hg]))
-    simp only [prefixUntilTerminal, firstTerminal] at ih' ⊢
-    simp [List.takeWhile_cons, List.dropWhile_cons, hf, ih'.1, ih'.2]
-
-theorem received_of_shape (cfg : Cfg) (v : Option J) (a : Frame) (mid tail : List Ev) :
-    List.filterMap Ev.recv?
-        ([theConnect cfg, .send (initMsg cfg), .recv a, .send (subscribeMsg cfg v)] ++ mid ++ tail) =
-      a :: (mid.filterMap Ev.recv? ++ tail.filterMap Ev.recv?) := by
-  simp only [List.filterMap_append]; rfl
-
 /-- the run on `ack :: pre ++ x :: rest` with `pre` continuing and `x` terminal -/
 theorem run_until_terminal (cfg : Cfg) (vars : Vars) (a : Frame) (pre rest : List Frame) (x : Frame)
     (v : Option J) (h : NoDupKw cfg) (ha : (letter a).isAck = true) (hv : Serialised vars v)
@@ -467,7 +306,7 @@ theorem complete_finishes (cfg : Cfg) (vars : Vars) (a : Frame) (pre rest : List
   rw [run_until_terminal cfg vars a pre rest c v h ha hv hpre hx, terminal_complete c hc]
   refine ⟨rfl, rfl, ?_⟩
   show List.filterMap Ev.recv? _ = _
-  rw [received_of_shape, recv_prefix]; rfl
+  rw [received_of_shape _ _ _ _ _ _ rfl rfl rfl, recv_prefix]; rfl
 
 /-- **error_raises_multi.**  On `error` the GraphQL multi-error is raised, carrying every error of
     the payload (message, locations, path, extensions, original, in order). -/
@@ -480,7 +319,7 @@ theorem error_raises_multi (cfg : Cfg) (vars : Vars) (a : Frame) (pre rest : Lis
   rw [run_until_terminal cfg vars a pre rest e v h ha hv hpre hx, terminal_error e es he]
   refine ⟨rfl, ?_⟩
   show List.filterMap Ev.recv? _ = _
-  rw [received_of_shape, recv_prefix]; rfl
+  rw [received_of_shape _ _ _ _ _ _ rfl rfl rfl, recv_prefix]; rfl
 
 /-- **invalid_raises** (mid-stream): a text frame that is not JSON, an unknown type, a missing
     type, a `next` without data raise the invalid-message error carrying the offending message. -/
@@ -494,7 +333,7 @@ theorem invalid_raises (cfg : Cfg) (vars : Vars) (a : Frame) (pre rest : List Fr
   rw [run_until_terminal cfg vars a pre rest x v h ha hv hpre hc, terminal_invalid x hx]
   refine ⟨rfl, ?_⟩
   show List.filterMap Ev.recv? _ = _
-  rw [received_of_shape, recv_prefix]; rfl
+  rw [received_of_shape _ _ _ _ _ _ rfl rfl rfl, recv_prefix]; rfl
 
 /-- When the frames run out (the server closes normally) the generator just finishes. -/
 theorem exhausted_finishes (cfg : Cfg) (vars : Vars) (a : Frame) (fs : List Frame) (v : Option J)
@@ -528,50 +367,7 @@ theorem outcome_as_demanded (cfg : Cfg) (vars : Vars) (a : Frame) (fs : List Fra
     · cases hd; rw [terminal_invalid x (Or.inr (Or.inr (Or.inl hl)))]
     · cases hd; rw [terminal_invalid x (Or.inr (Or.inr (Or.inr hl)))]
 
-/-! ## 5. The OpenTelemetry variant behaves identically -/
-
-theorem handleTel_eq (t : Types) (e : Option String) (f : Frame) :
-    WsClientOT.handleTel t e f = handle t e f := by
-  cases f with
-  | text s => rfl
-  | badBytes => rfl
-  | json j =>
-    cases j with
-    | obj kvs =>
-      simp only [WsClientOT.handleTel, WsClientOT.withSpan, handle, handle.dispatch]
-      cases typeCheck t (J.lookup "type" kvs) <;> cases e <;> rfl
-    | null => rfl
-    | bool _ => rfl
-    | num _ _ => rfl
-    | str _ => rfl
-    | arr _ => rfl
-
-theorem streamTel_eq (t : Types) (fs : List Frame) : WsClientOT.streamTel t fs = stream t fs := by
-  induction fs with
-  | nil => rfl
-  | cons f fs ih =>
-    simp only [WsClientOT.streamTel, stream, handleTel_eq, ih]
-    cases handle t none f with
-    | ret d => cases d <;> rfl
-    | retClose => rfl
-    | retPong => rfl
-    | raise o => rfl
-
-theorem afterAckTel_eq (t : Types) (cfg : Cfg) (vars : Vars) (c : Bool) (fs : List Frame) :
-    WsClientOT.afterAckTel t cfg vars c fs = afterAck t cfg vars c fs := by
-  simp only [WsClientOT.afterAckTel, WsClientOT.withSpan, afterAck, streamTel_eq]
-  cases serialise vars <;> rfl
-
-theorem runTel_eq (t : Types) (sp : String) (cfg : Cfg) (vars : Vars) (fs : List Frame) :
-    WsClientOT.runTel t sp cfg vars fs = runT t sp cfg vars fs := by
-  simp only [WsClientOT.runTel, WsClientOT.withSpan, runT]
-  split
-  · rfl
-  · cases fs with
-    | nil => rfl
-    | cons f fs =>
-      simp only [handleTel_eq, afterAckTel_eq]
-      cases handle t (some t.ack) f <;> rfl
+/-! ## 4. The OpenTelemetry variant behaves identically -/
 
 /-- **ot_equivalent.**  The OpenTelemetry client — tracer unset (`_execute_ws`) or set
     (`_execute_ws_with_telemetry` and its three re-implemented helpers), over its own copy of the
@@ -583,7 +379,7 @@ theorem ot_equivalent (tracer : Bool) (cfg : Cfg) (vars : Vars) (fs : List Frame
   simp only [runOT, WsClientOT.run, types_resolve_ot, runPlain_eq, subprotocol_is_protocol.2, runTel_eq]
   cases tracer <;> rfl
 
-/-! ## 6. The handshake against the installed websockets (C13-F1) -/
+/-! ## 5. The handshake against the installed websockets (C13-F1) -/
 
 /-- the handshake clause: the installed `websockets.connect` accepts the call `execute_ws` makes -/
 def HandshakeAccepted : Prop :=
@@ -611,7 +407,7 @@ theorem handshake_full_false : ¬ HandshakeAccepted := by
 example : WsConnect.acceptsNames Tables.wsConnectAccepted ["subprotocols", "origin", "additional_headers"] = true := by
   decide
 
-/-! ## 7. The property at full strength, its refutation, and the proved part -/
+/-! ## 6. The property at full strength, its refutation, and the proved part -/
 
 /-- The protocol clauses at full strength for one input, *given a socket*. -/
 structure ProtocolFull (cfg : Cfg) (vars : Vars) (frames : List Frame) : Prop where
@@ -731,7 +527,7 @@ theorem C13_partial (cfg : Cfg) (vars : Vars) (frames : List Frame) (h : NoDupKw
     · rfl
     · simp [trigBinaryNotUtf8, hk, hst, hx, hb] at hs2
 
-/-! ## 8. Non-vacuity: concrete inputs satisfying the hypotheses, hitting each clause -/
+/-! ## 7. Non-vacuity: concrete inputs satisfying the hypotheses, hitting each clause -/
 
 example : Supported_13 cfg0 none [frAck, frNext (.obj [("counter", .num 1 0)]), frPing, frComplete, frPing] := by
   simp [Supported_13, trigFalsyNextData, trigBinaryNotUtf8, streamed, cfg0, J.hasKey, J.lookup, frAck, frNext,
